@@ -6,6 +6,7 @@ import (
 	"fmt"
 	"math"
 	"reflect"
+	"regexp"
 	"sort"
 	"strings"
 	"unicode/utf8"
@@ -172,6 +173,8 @@ func drawC18(t *rapid.T) Case {
 	}
 	return c
 }
+
+var c18MinusZeroLit = regexp.MustCompile(`-0([^.eE0-9]|$)`)
 
 // ---- helpers
 
@@ -516,6 +519,13 @@ func (c *C18Case) Run() (res stat.Result) {
 		}
 		if oe == nil {
 			if d := deepEq(od.Elem(), nd.Elem(), "", 0); d != "" {
+				// listed finding: the literal -0 decodes to either sign of zero depending on the byte after the input
+				if c18MinusZeroLit.Match(c.Doc) && knownListed("C19-minus-zero-integer-literal") && c19LeafDiffs(od.Elem(), nd.Elem(), func(x, y reflect.Value) bool {
+					return isFloatKind(x) && x.Float() == 0 && y.Float() == 0
+				}) {
+					res.Known = append(res.Known, "C19-minus-zero-integer-literal")
+					return res
+				}
 				return fail("input lacks the feature but values differ at %s (doc %s into %s)", d, clipB(c.Doc), ty)
 			}
 		}
@@ -914,6 +924,12 @@ func (c *C18Case) runEntryDec(cfg sonic.Config, res stat.Result) stat.Result {
 		}
 		if err == nil {
 			if d := deepEq(want.Elem(), got.Elem(), "", 0); d != "" {
+				if c18MinusZeroLit.Match(c.Doc) && knownListed("C19-minus-zero-integer-literal") && c19LeafDiffs(want.Elem(), got.Elem(), func(x, y reflect.Value) bool {
+					return isFloatKind(x) && x.Float() == 0 && y.Float() == 0
+				}) {
+					res.Known = append(res.Known, "C19-minus-zero-integer-literal")
+					return true
+				}
 				fail("%s differs from Config.Froze().Unmarshal at %s", name, d)
 				return false
 			}
